@@ -404,7 +404,9 @@ def judge(ctx, rejects):
 
 
 def finish(ctx, level="model_checking", rule="", assumptions=(), exhaustive=False, extra=None):
-    os.makedirs(os.path.join(ROOT, "evidence"), exist_ok=True)
+    # runs against another tree (seeded changes: VERIF_REPO) leave the evidence of /repo alone
+    evdir = os.path.join(ROOT, "evidence") if REPO == "/repo" else os.path.join(WORK, "evidence-other-tree")
+    os.makedirs(evdir, exist_ok=True)
     os.makedirs(os.path.join(ROOT, "replays"), exist_ok=True)
     known = {k["signature"]: k for k in load_known()}
     seen = set()
@@ -446,7 +448,7 @@ def finish(ctx, level="model_checking", rule="", assumptions=(), exhaustive=Fals
     ev = dict(property_id=ctx.prop, tier=ctx.tier, seed=ctx.seed, level=level, coverage=cov,
               assumptions=list(assumptions) + ["go toolchain: " + go_version(), "TLC 2.x (tla2tools 1.8.0)"],
               wall_s=round(time.time() - ctx.t0, 1), violations=len(ctx.violations))
-    with open(os.path.join(ROOT, "evidence", ctx.prop + ".json"), "w") as f:
+    with open(os.path.join(evdir, ctx.prop + ".json"), "w") as f:
         json.dump(ev, f, indent=1, default=str)
     log("[done] %s %s: rc=%d, %d traces validated, %d violations, %d known, %.1fs" %
         (ctx.prop, ctx.tier, rc, ctx.counts["traces"], len(ctx.violations), len(ctx.known_hits), time.time() - ctx.t0))
